@@ -283,6 +283,12 @@ pub fn small_red_trees(max: usize) -> Vec<RefTree> {
     small_trees(max, &toks, &[0])
 }
 
+/// the API surface a case is driven through: plain / resolved node and token API, and the four element enums
+/// (`SyntaxElement`, `SyntaxElementRef`, `ResolvedElement`, `ResolvedElementRef`) for the element-level requests
+pub fn api_name(i: usize) -> &'static str {
+    ["plain", "resolved", "elem", "relemref", "elemref", "relem"][i % 6]
+}
+
 fn start_case(out: &mut Out, case: &mut usize, t: &RefTree, rng: &mut Rng, backend: &str) {
     out.lines.push(format!("case {}", *case));
     *case += 1;
@@ -317,7 +323,7 @@ pub fn gen_red(seed: u64, tier: &str) -> Vec<String> {
     let trees = small_red_trees(max);
     for (ti, t) in trees.iter().enumerate() {
         start_case(&mut out, &mut case, t, &mut rng, bes[ti % bes.len()]);
-        out.lines.push(format!("api {}", if ti % 2 == 0 { "plain" } else { "resolved" }));
+        out.lines.push(format!("api {}", api_name(ti)));
         // each route on a fresh red tree over the same green tree
         for r in ROUTES {
             let mut sim = Sim::new(t, "g0", &mut out);
@@ -384,7 +390,7 @@ pub fn gen_red(seed: u64, tier: &str) -> Vec<String> {
     for i in 0..n {
         let t = if i % 25 == 3 { deep_tree(&mut rng, 60) } else { random_red_tree(&mut rng, i % 10 == 0) };
         start_case(&mut out, &mut case, &t, &mut rng, bes[i % bes.len()]);
-        out.lines.push(format!("api {}", if i % 2 == 0 { "plain" } else { "resolved" }));
+        out.lines.push(format!("api {}", api_name(i)));
         let mut sim = Sim::new(&t, "g0", &mut out);
         let steps = 20 + rng.below(60);
         for _ in 0..steps {
@@ -504,7 +510,7 @@ pub fn gen_red(seed: u64, tier: &str) -> Vec<String> {
         out.lines.push("builder c0".into());
         emit_tree(&t2, &mut out.lines, &mut rng);
         out.lines.push("finish".into());
-        out.lines.push(format!("api {}", if i % 2 == 0 { "plain" } else { "resolved" }));
+        out.lines.push(format!("api {}", api_name(i)));
         let mut sim = Sim::new(&t2, "g1", &mut out);
         let r = ROUTES[i % ROUTES.len()];
         route(&mut sim, 0, r, &mut out);
@@ -535,7 +541,7 @@ pub fn gen_queries(seed: u64, tier: &str) -> Vec<String> {
     ];
     for (ti, t) in small_trees(max, &toks, &[0]).iter().enumerate() {
         start_case(&mut out, &mut case, t, &mut rng, "user");
-        out.lines.push(format!("api {}", if ti % 2 == 0 { "plain" } else { "resolved" }));
+        out.lines.push(format!("api {}", api_name(ti)));
         // queries first (fresh tree: the queries materialise what they need), from every node; every third tree has a
         // history first: the elements the queries pass over were created by some other route (backwards, by tokens, ...)
         let mut sim = Sim::new(t, "g0", &mut out);
@@ -559,7 +565,7 @@ pub fn gen_queries(seed: u64, tier: &str) -> Vec<String> {
     for i in 0..n {
         let t = random_red_tree(&mut rng, i % 5 == 0);
         start_case(&mut out, &mut case, &t, &mut rng, "user");
-        out.lines.push(format!("api {}", if i % 2 == 0 { "plain" } else { "resolved" }));
+        out.lines.push(format!("api {}", api_name(i)));
         let mut sim = Sim::new(&t, "g0", &mut out);
         if i % 2 == 0 {
             sim.nav(0, &["descendants"], &mut out);
@@ -620,7 +626,7 @@ pub fn gen_replace(seed: u64, tier: &str) -> Vec<String> {
     }
     for (ti, t) in trees.iter().enumerate() {
         start_case(&mut out, &mut case, t, &mut rng, bes[ti % bes.len()]);
-        out.lines.push(format!("api {}", if ti % 2 == 0 { "plain" } else { "resolved" }));
+        out.lines.push(format!("api {}", api_name(ti)));
         let mut sim = Sim::new(t, "g0", &mut out);
         sim.nav(0, &["descendants_with_tokens"], &mut out);
         let mut positions = vec![];
@@ -818,7 +824,7 @@ pub fn gen_fmt(seed: u64, tier: &str) -> Vec<String> {
         let mut n = bi;
         emit(&t, &mut out.lines, &mut n);
         out.lines.push("finish".into());
-        out.lines.push(format!("api {}", if bi % 2 == 0 { "plain" } else { "resolved" }));
+        out.lines.push(format!("api {}", api_name(bi)));
         let mut sim = Sim::new(&t, "g0", &mut out);
         sim.nav(0, &["descendants_with_tokens"], &mut out);
         for x in sim.known() {
@@ -938,7 +944,7 @@ pub fn gen_tokens(seed: u64, tier: &str) -> Vec<String> {
         out.lines.push("builder c0".into());
         emit_tree(&t2, &mut out.lines, &mut rng);
         out.lines.push("finish".into());
-        out.lines.push(format!("api {}", if i % 2 == 0 { "plain" } else { "resolved" }));
+        out.lines.push(format!("api {}", api_name(i)));
         let mut s1 = Sim::new(&t1, "g0", &mut out);
         s1.nav(0, &["descendants_with_tokens"], &mut out);
         let mut s2 = Sim::new(&t2, "g1", &mut out);
@@ -997,7 +1003,7 @@ pub fn gen_tokens(seed: u64, tier: &str) -> Vec<String> {
         out.lines.push("builder c0".into());
         emit_tree(&t2, &mut out.lines, &mut rng);
         out.lines.push("finish".into());
-        out.lines.push(format!("api {}", if i % 2 == 0 { "plain" } else { "resolved" }));
+        out.lines.push(format!("api {}", api_name(i)));
         let mut toks: Vec<usize> = vec![];
         for (t, g) in [(&t1, "g0"), (&t2, "g1")] {
             let mut s = Sim::new(t, g, &mut out);
